@@ -13,6 +13,20 @@ SPEC_DIR = os.path.join(VERIF, 'spec')
 JAR = '/opt/veriftools/tla/tla2tools.jar:/opt/veriftools/tla/CommunityModules-deps.jar'
 
 
+_LIVE = {}        # scratch directories not yet removed -> pid of the process that made them
+
+
+def _sweep():
+    """at interpreter exit (also after SIGTERM, see ./check): no scratch directory of this process is left behind"""
+    for path, pid in list(_LIVE.items()):
+        if pid == os.getpid():
+            shutil.rmtree(path, ignore_errors=True)
+
+
+import atexit  # noqa: E402
+atexit.register(_sweep)
+
+
 class MachineryError(Exception):
     """TLC crashed, a spec does not parse, ...: never a verdict (exit code 2)."""
 
@@ -22,6 +36,7 @@ class Workdir:
 
     def __init__(self, prefix='verif-tlc-'):
         self.path = tempfile.mkdtemp(prefix=prefix)
+        _LIVE[self.path] = os.getpid()
         for f in os.listdir(SPEC_DIR):
             if f.endswith('.tla') or f.endswith('.cfg'):
                 shutil.copy(os.path.join(SPEC_DIR, f), self.path)
@@ -44,6 +59,7 @@ class Workdir:
 
     def cleanup(self):
         shutil.rmtree(self.path, ignore_errors=True)
+        _LIVE.pop(self.path, None)
 
     def __enter__(self):
         return self
